@@ -1,3 +1,4 @@
+import EdpVerif.Generated.Misc
 import EdpVerif.Lemmas.ProcsLate
 import EdpVerif.Lemmas.Behaviours
 /-
@@ -849,5 +850,23 @@ example (ω : Oracle) (e : Entry) (r : List Entry) (req : Term) (h : (e.key == e
     callCbs (callHandler ω ⟨e :: r⟩ e.key req).2.1 = [(e.uid, req)] := by
   rw [(C18_event_call_goes_to_the_named_handler ω ⟨e :: r⟩ e.key req).1]
   simp [findKey, h]
+
+/-- The state the process model carries IS the state the code keeps (regenerated from the source on every run): a handle
+has the pid, the mailbox sender and the two closable sets (`ExitSet`: entries and the closed flag); the registry has the
+two tables; a mailbox is one channel; the behaviours keep their callback object, their tags, (the event manager:) the
+handler map, and the registry. -/
+theorem C18_state_is_the_sources_state :
+    Edp.Gen.STRUCT_ProcessHandle =
+      ["pid:ExternalPid", "mailbox_sender:mpsc::Sender<Message>", "links:Arc<RwLock<ExitSet<ExternalPid>>>",
+       "monitors:Arc<RwLock<ExitSet<(ExternalPid,ExternalReference)>>>"]
+    ∧ Edp.Gen.STRUCT_ExitSet = ["entries:HashSet<T>", "closed:bool"]
+    ∧ Edp.Gen.STRUCT_ProcessRegistry =
+      ["by_pid:Arc<RwLock<HashMap<ExternalPid,ProcessHandle>>>", "by_name:Arc<RwLock<HashMap<Atom,ExternalPid>>>"]
+    ∧ Edp.Gen.STRUCT_Mailbox = ["sender:mpsc::Sender<Message>", "receiver:mpsc::Receiver<Message>"]
+    ∧ Edp.Gen.STRUCT_GenServerProcess = ["server:T", "call_tag:Atom", "cast_tag:Atom", "registry:Arc<ProcessRegistry>"]
+    ∧ Edp.Gen.STRUCT_GenEventManager =
+      ["handlers:HashMap<String,HandlerEntry>", "notify_tag:Atom", "sync_notify_tag:Atom", "call_tag:Atom",
+       "which_handlers_tag:Atom", "registry:Arc<ProcessRegistry>"]
+    ∧ Edp.Gen.PROCESS_WIDE_STATE = [] := by decide
 
 end Edp.Props.C18
